@@ -5,15 +5,6 @@ From TT Require Import Model.Doc Gen.StyleTables Model.Isd Model.SigTimes Model.
 From TT Require Import Model.CueTriggers Spec.IsdSpec Spec.CueSpec Proofs.C06.Filters Proofs.C06.Inline Proofs.C06.Loop Proofs.C06.Text.
 Open Scope Z_scope.
 
-(* <p>pre<ruby><rb>BASE</rb><rt>anno</rt></ruby>post</p>, body 1 s .. 2 s *)
-Definition w_ruby : doc := (mkDoc [(Elem (mkAttrs KRegion (Some [114;48]) None None None [] [] false [] []) [])] (Some (Elem (mkAttrs KBody None (Some (Qmake 1 1)) (Some (Qmake 2 1)) None [] [] false [] []) [(Elem (mkAttrs KDiv None None None (Some [114;48]) [] [] false [] []) [(Elem (mkAttrs KP None None None None [] [] false [] []) [(Elem (mkAttrs KSpan None None None None [] [] false [] []) [(Elem (mkAttrs KText None None None None [] [] false [] [112;114;101]) [])]); (Elem (mkAttrs KRuby None None None None [] [] false [] []) [(Elem (mkAttrs KRb None None None None [] [] false [] []) [(Elem (mkAttrs KSpan None None None None [] [] false [] []) [(Elem (mkAttrs KText None None None None [] [] false [] [66;65;83;69]) [])])]); (Elem (mkAttrs KRt None None None None [] [] false [] []) [(Elem (mkAttrs KSpan None None None None [] [] false [] []) [(Elem (mkAttrs KText None None None None [] [] false [] [97;110;110;111]) [])])])]); (Elem (mkAttrs KSpan None None None None [] [] false [] []) [(Elem (mkAttrs KText None None None None [] [] false [] [112;111;115;116]) [])])])])])) [] 15 32 1080 1920 None None []).
-
-(* body/div/div/p "nested" *)
-Definition w_nested : doc := (mkDoc [(Elem (mkAttrs KRegion (Some [114;48]) None None None [] [] false [] []) [])] (Some (Elem (mkAttrs KBody None (Some (Qmake 1 1)) (Some (Qmake 2 1)) None [] [] false [] []) [(Elem (mkAttrs KDiv None None None (Some [114;48]) [] [] false [] []) [(Elem (mkAttrs KDiv None None None None [] [] false [] []) [(Elem (mkAttrs KP None None None None [] [] false [] []) [(Elem (mkAttrs KSpan None None None None [] [] false [] []) [(Elem (mkAttrs KText None None None None [] [] false [] [110;101;115;116;101;100]) [])])])])])])) [] 15 32 1080 1920 None None []).
-
-(* <p><span tts:color="red"><br/></span></p> *)
-Definition w_tagsonly : doc := (mkDoc [(Elem (mkAttrs KRegion (Some [114;48]) None None None [] [] false [] []) [])] (Some (Elem (mkAttrs KBody None (Some (Qmake 1 1)) (Some (Qmake 2 1)) None [] [] false [] []) [(Elem (mkAttrs KDiv None None None (Some [114;48]) [] [] false [] []) [(Elem (mkAttrs KP None None None None [] [] false [] []) [(Elem (mkAttrs KSpan None None None None [(1, (VColor 4278190335))] [] false [] []) [(Elem (mkAttrs KBr None None None None [] [] false [] []) [])])])])])) [] 15 32 1080 1920 None None []).
-
 (* <p begin="1s" end="2s">first</p> <p begin="3s" end="3.0003s">x</p> *)
 Definition w_collapsed : doc := (mkDoc [(Elem (mkAttrs KRegion (Some [114;48]) None None None [] [] false [] []) [])] (Some (Elem (mkAttrs KBody None None None None [] [] false [] []) [(Elem (mkAttrs KDiv None None None (Some [114;48]) [] [] false [] []) [(Elem (mkAttrs KP None (Some (Qmake 1 1)) (Some (Qmake 2 1)) None [] [] false [] []) [(Elem (mkAttrs KSpan None None None None [] [] false [] []) [(Elem (mkAttrs KText None None None None [] [] false [] [102;105;114;115;116]) [])])]); (Elem (mkAttrs KP None (Some (Qmake 3 1)) (Some (Qmake 30003 10000)) None [] [] false [] []) [(Elem (mkAttrs KSpan None None None None [] [] false [] []) [(Elem (mkAttrs KText None None None None [] [] false [] [120]) [])])])])])) [] 15 32 1080 1920 None None []).
 
@@ -23,34 +14,6 @@ Definition w_blankline : doc := (mkDoc [(Elem (mkAttrs KRegion (Some [114;48]) N
 (* a --&gt; b *)
 Definition w_arrow : doc := (mkDoc [(Elem (mkAttrs KRegion (Some [114;48]) None None None [] [] false [] []) [])] (Some (Elem (mkAttrs KBody None None None None [] [] false [] []) [(Elem (mkAttrs KDiv None None None (Some [114;48]) [] [] false [] []) [(Elem (mkAttrs KP None (Some (Qmake 1 1)) (Some (Qmake 2 1)) None [] [] false [] []) [(Elem (mkAttrs KSpan None None None None [] [] false [] []) [(Elem (mkAttrs KText None None None None [] [] false [] [97;32;45;45;62;32;98]) [])])])])])) [] 15 32 1080 1920 None None []).
 
-
-(* writers-skip-ruby: C06_text_total_partial_srt without its trigger hypothesis *)
-Theorem C06_text_total_srt_refuted : exists d seq cs,
-  isd_sequence d = Ok seq /\ seq_shape seq = true /\ srt_cues true seq = Ok cs /\ visc (flat_map cue_chars cs) <> visc (seq_text seq).
-Proof.
-  exists w_ruby. eexists. eexists. split; [vm_compute; reflexivity|]. split; [vm_compute; reflexivity|].
-  split; [vm_compute; reflexivity|]. vm_compute. discriminate.
-Qed.
-Theorem C06_ruby_trigger_fires : exists seq, isd_sequence w_ruby = Ok seq /\ trig_ruby seq = true /\ trig_lost_srt seq = true.
-Proof. eexists. split; [vm_compute; reflexivity|]. split; vm_compute; reflexivity. Qed.
-
-(* vtt-nested-div-lost: C06_text_total_partial_vtt without its trigger hypothesis (the SubRip writer keeps the text) *)
-Theorem C06_text_total_vtt_refuted : exists d seq cs css,
-  isd_sequence d = Ok seq /\ seq_shape seq = true /\ vtt_cues (mkVttConfig false false true) seq = Ok (cs, css) /\
-  visc (flat_map cue_chars cs) <> visc (seq_text seq) /\ trig_lost_srt seq = false /\ trig_nested_div (mkVttConfig false false true) seq = true.
-Proof.
-  exists w_nested. eexists. eexists. eexists. split; [vm_compute; reflexivity|]. split; [vm_compute; reflexivity|].
-  split; [vm_compute; reflexivity|]. split; [vm_compute; discriminate|]. split; vm_compute; reflexivity.
-Qed.
-
-(* tags-only-cue: a cue is written over an interval for which the property prescribes none (nothing but a line break is visible) *)
-Theorem C06_nonblank_refuted : exists d ts seq cs,
-  sig d = Ok ts /\ isd_sequence d = Ok seq /\ srt_cues true seq = Ok cs /\ cue_spec false d ts = [] /\ cue_spec true d ts = [] /\
-  cs <> [] /\ trig_tags_only cs = true.
-Proof.
-  exists w_tagsonly. eexists. eexists. eexists. split; [vm_compute; reflexivity|]. split; [vm_compute; reflexivity|].
-  split; [vm_compute; reflexivity|]. split; [vm_compute; reflexivity|]. split; [vm_compute; reflexivity|]. split; [discriminate|]. vm_compute. reflexivity.
-Qed.
 
 (* no-cues-when-writer-raises: the property prescribes two cues, the writer returns nothing *)
 Theorem C06_no_cues_refuted : exists d ts,
@@ -67,5 +30,4 @@ Proof.
   split; vm_compute; reflexivity.
 Qed.
 
-Print Assumptions C06_text_total_srt_refuted.  Print Assumptions C06_text_total_vtt_refuted.  Print Assumptions C06_nonblank_refuted.
 Print Assumptions C06_no_cues_refuted.  Print Assumptions C06_payload_refuted.
